@@ -1,5 +1,6 @@
 import Rbgp.Gr.Restarting.Codec
 import Rbgp.Gr.Restarting.Spec
+import Rbgp.Gr.Restarting.Wire
 namespace Rbgp.C11
 open Rbgp Rbgp.Term Rbgp.Gr.Restarting Rbgp.Gr.Restarting.Codec
 
@@ -57,10 +58,17 @@ def handler (mode : String) (line : String) : String :=
   | "model" =>
       match (parse line).bind caseOf? with
       | some (cfg, evs) => toStr (traceT (run cfg evs))
-      | none => "(bad-case)"
+      | none =>
+          -- socket-level cases have no model: they are judged by the oracle only
+          if ((parse line).bind Wire.caseOf?).isSome then "(wire-not-modelled)" else "(bad-case)"
   | "oracle" =>
       match parseMany line with
       | some [c, o] =>
+          if (Wire.caseOf? c).isSome then
+            match Wire.caseOf? c, Wire.traceOf? o with
+            | some (cfg, evs), some tr => verdictStr (Wire.check cfg evs tr)
+            | _, _ => if toStr o == "(bad-case)" then "(bad-case)" else "fail step=0 clause=unparsable-observation"
+          else
           match caseOf? c with
           | some (cfg, evs) =>
               match traceOf? o with
